@@ -225,6 +225,9 @@ def run(ctx, rep):
                               sorted(allowed), sorted(got)))
         rep.floor("R2b", "executable() sites in %s" % fq, n2, 1)
 
+    # ------------------------------------------------------------------ R5 bet id discipline
+    bet_id_writers(ctx, rep, "R5")
+
     # ------------------------------------------------------------------ R3 tables
     members = set(m.members)
     live, comp = set(m.live), set(m.complete)
@@ -276,6 +279,40 @@ def run(ctx, rep):
                   "mutation of status_log in %s" % key(f, c), f, c)
 
 
+def bet_id_writers(ctx, rep, R):
+    """who may assign order.bet_id, and under which guards (shared with C11-R4).  A synchronous
+    placement is acknowledged only by its own response: until then the order has no bet id, stays
+    PENDING and rejects every request.  The stream processor may therefore pick a bet id up only for an
+    async placement that has none yet."""
+    prog, res = ctx.prog, ctx.res
+    allowed = {
+        "BaseOrder.__init__": None,
+        "BaseExecution._order_logger": None,
+        "BetdaqExecution._order_logger": None,
+        "Trade.create_order_from_current": None,
+        "process.process_current_order": {("order.async_", True), ("order.bet_id is None", True),
+                                          ("current_order.bet_id", True)},
+    }
+    n = 0
+    for f, s, t, kind in all_stores(prog, "bet_id"):
+        bt = res.type_of(t.value, f)
+        if bt is not None and not bt.is_subclass_of("BaseOrder"):
+            continue
+        n += 1
+        if not rep.check(f.qual in allowed, R, "bet id assigned in " + key(f, s), f, s,
+                         "only placement responses, adoption and the async pick-up of the stream processor assign bet ids"):
+            continue
+        need = allowed[f.qual]
+        if need:
+            cfg = ctx.cfg(f)
+            node = cfg.nodes_of(s)[0]
+            gs = {(utext(g.exprs[0]), pol) for g, pol in cfg.guards(node.id)}
+            rep.check(need <= gs, R, key(f, s, "bet id picked up from the stream only for an async placement without one"),
+                      f, s, "guards %s; a synchronous order that gets its bet id from the stream becomes EXECUTABLE and "
+                            "accepts requests while its placement is still in flight" % sorted(gs))
+    rep.floor(R, "assignments of order.bet_id", n, 5)
+
+
 def _reach_without(cfg, nid, g, pol):
     lab = "T" if pol else "F"
     return nid in cfg.reachable(cfg.entry, (), {(g.id, lab)})
@@ -312,6 +349,10 @@ MUTANTS = [
     dict(id="c03-stream-reopens-inflight", file="flumine/order/process.py", func="process_current_order",
          old="    if order.bet_id and order.status == OrderStatus.PENDING:", new="    if order.bet_id:",
          expect=["R2"], why="stream update moves an in-flight / completed order"),
+    dict(id="c03-sync-betid-from-stream", file="flumine/order/process.py", func="process_current_order",
+         old="    if order.async_ and order.bet_id is None and current_order.bet_id:",
+         new="    if order.bet_id is None and current_order.bet_id:", expect=["R5"],
+         why="sync order becomes EXECUTABLE while its placement is in flight"),
     dict(id="c03-duplicate-place", file="flumine/execution/transaction.py", func="Transaction.place_order",
          old="        if order.id in self.market.blotter:\n            raise OrderError(\"Order %s has already been placed\" % order.id)\n",
          new="", expect=["R2"], why="a resting order set PENDING again (F08)"),
